@@ -231,7 +231,8 @@ def _free_session(calls, plan, maxcache, star, regs, seed):
     ordered event list"""
     warnings.simplefilter('ignore')
     log = B.EventLog()
-    B.install_logs(log)
+    log.type_cache = all(c.get('spelling', 'plain') == 'plain' for c in calls)   # (subclass spellings: types the model does not name)
+    B.install_logs(log, type_cache=log.type_cache)
     B.set_max_cache(maxcache)
     if not star:
         glom.core.PATH_STAR = False
@@ -401,9 +402,9 @@ def _main(check, tier, seed):
     base = dict(MaxCalls=1, ToggleAnytime='FALSE', RegisterAnytime='FALSE', RecHist='FALSE', Mutant='""')
     # 1. model checking at the finest grain (cache steps separate)
     fine = {'quick': [dict(NProcs=2, PoolSize=9, PoolFrom=1, MaxCache=1, MaxToggles=1, MaxRegs=0, Gates='{"yield","p","t"}'),
-                      dict(NProcs=2, PoolSize=23, PoolFrom=13, MaxCache=1, MaxToggles=0, MaxRegs=0, Gates='{"yield","p","t"}')],
+                      dict(NProcs=2, PoolSize=25, PoolFrom=13, MaxCache=1, MaxToggles=0, MaxRegs=0, Gates='{"yield","p","t"}')],
             'thorough': [dict(NProcs=2, PoolSize=12, PoolFrom=1, MaxCache=1, MaxToggles=1, MaxRegs=0, Gates='{"yield","p","t"}'),
-                         dict(NProcs=2, PoolSize=32, PoolFrom=4, MaxCache=1, MaxToggles=0, MaxRegs=1, Gates='{"yield","p","t"}'),
+                         dict(NProcs=2, PoolSize=34, PoolFrom=4, MaxCache=1, MaxToggles=0, MaxRegs=1, Gates='{"yield","p","t"}'),
                          dict(NProcs=3, PoolSize=3, PoolFrom=3, MaxCache=0, MaxToggles=0, MaxRegs=0, Gates='{"yield","p","t"}'),
                          dict(NProcs=2, PoolSize=2, PoolFrom=10, MaxCache=0, MaxToggles=1, MaxRegs=0, Gates='{"yield","p","t"}')]}[tier]
     # (a separate interpreter, so that this one stays single-threaded for the forks below)
@@ -425,7 +426,7 @@ def _main(check, tier, seed):
                                                                           MaxRegs=0, Gates='{"yield"}'))
         pool = pool + replay_config(check, 'yield-2-ref-check', dict(NProcs=2, PoolSize=6, PoolFrom=25, MaxCache=1, MaxToggles=0,
                                                                      MaxRegs=0, Gates='{"yield"}'))
-        pool = pool + replay_config(check, 'yield-2-classes-vars', dict(NProcs=2, PoolSize=5, PoolFrom=31, MaxCache=1, MaxToggles=0,
+        pool = pool + replay_config(check, 'yield-2-classes-vars', dict(NProcs=2, PoolSize=7, PoolFrom=31, MaxCache=1, MaxToggles=0,
                                                                         MaxRegs=0, Gates='{"yield"}'))
     else:
         pool = replay_config(check, 'yield-2', dict(NProcs=2, PoolSize=9, PoolFrom=1, MaxCache=1, MaxToggles=1, MaxRegs=0, Gates='{"yield"}'))
@@ -435,7 +436,7 @@ def _main(check, tier, seed):
                                                                           MaxRegs=0, Gates='{"yield"}'))
         pool = pool + replay_config(check, 'yield-2-ref-check', dict(NProcs=2, PoolSize=6, PoolFrom=25, MaxCache=1, MaxToggles=0,
                                                                      MaxRegs=0, Gates='{"yield"}'))
-        pool = pool + replay_config(check, 'yield-2-classes-vars', dict(NProcs=2, PoolSize=5, PoolFrom=31, MaxCache=1, MaxToggles=0,
+        pool = pool + replay_config(check, 'yield-2-classes-vars', dict(NProcs=2, PoolSize=7, PoolFrom=31, MaxCache=1, MaxToggles=0,
                                                                         MaxRegs=0, Gates='{"yield"}'))
         replay_config(check, 'yield-2-registry', dict(NProcs=2, PoolSize=2, PoolFrom=4, MaxCache=1, MaxToggles=0, MaxRegs=1, Gates='{"yield"}'))
         replay_config(check, 'yield-3', dict(NProcs=3, PoolSize=4, PoolFrom=3, MaxCache=1, MaxToggles=0, MaxRegs=0, Gates='{"yield"}'))
@@ -461,6 +462,9 @@ def _main(check, tier, seed):
     B.require_coverage(cov)
     check.extra['mechanism_coverage'] = cov
     # 4. boundary observation and spec mutants
+    # the spec-object zoo: a second evaluation of the same object inside the first one's user code
+    import c06_zoo
+    c06_zoo.run_c20(check, tier, seed, match_finding)
     check.extra['mechanism_unobservable'] = in_child(B.observability)
     for key, fn in (('boundary_observation_register_during_lookup', _register_race),
                     ('boundary_observation_toggle_during_from_text', _toggle_race)):
@@ -511,6 +515,9 @@ def replay(path):
         v = json.load(f)
     case = v['case']
     print('why:', v['why'])
+    if case.get('kind') == 'zoo':
+        import c06_zoo
+        return c06_zoo.replay_case(case)
     if case.get('kind') == 'schedule':
         out = dict(n=0, calls=0, nontrivial=0, bad=[], drift=0)
         _check_schedule(case['hist'], case['pool'], case['maxcache'], case['gated_paths'], Oracle20(), out)
